@@ -46,8 +46,10 @@ type Loader struct {
 	visitedDocuments map[string]*T
 
 	visitedRefs map[string]struct{}
-	visitedPath []string
-	backtrack   map[string][]func(value any)
+	// chainTargets maps a reference that led to a pending reference to that reference (see awaitChainTarget)
+	chainTargets map[string]string
+	visitedPath  []string
+	backtrack    map[string][]func(value any)
 }
 
 // NewLoader returns an empty Loader
@@ -60,6 +62,7 @@ func NewLoader() *Loader {
 func (loader *Loader) resetVisitedPathItemRefs() {
 	loader.visitedPathItemRefs = make(map[string]struct{})
 	loader.visitedRefs = make(map[string]struct{})
+	loader.chainTargets = nil
 	loader.visitedPath = nil
 	loader.backtrack = make(map[string][]func(value any))
 }
@@ -366,6 +369,38 @@ func (loader *Loader) shouldVisitRef(ref string, fn func(value any)) bool {
 	return true
 }
 
+// awaitChainTarget handles a reference whose target is itself a reference (innerRef, found in the
+// document at innerPath) that is still being resolved further up the stack: a chain closing a cycle.
+// The value is not known yet, so fill, and whoever waits for key, are handed over to the pending
+// reference, and key is released. It reports false when the inner reference is not pending.
+func (loader *Loader) awaitChainTarget(key, kind, innerRef string, innerPath *url.URL, fill func(value any)) bool {
+	if innerRef == "" {
+		return false
+	}
+	innerKey := loader.refKey(kind, innerRef, innerPath)
+	// the inner reference may itself have been handed over to the one it leads to
+	for hops := 0; hops < len(loader.chainTargets); hops++ {
+		if _, pending := loader.visitedRefs[innerKey]; pending {
+			break
+		}
+		next, ok := loader.chainTargets[innerKey]
+		if !ok {
+			break
+		}
+		innerKey = next
+	}
+	if _, pending := loader.visitedRefs[innerKey]; !pending || innerKey == key {
+		return false
+	}
+	loader.backtrack[innerKey] = append(append(loader.backtrack[innerKey], fill), loader.backtrack[key]...)
+	if loader.chainTargets == nil {
+		loader.chainTargets = make(map[string]string)
+	}
+	loader.chainTargets[key] = innerKey
+	loader.unvisitRef(key, nil)
+	return true
+}
+
 func (loader *Loader) resolveComponent(doc *T, ref string, path *url.URL, resolved any) (
 	componentDoc *T,
 	componentPath *url.URL,
@@ -638,11 +673,12 @@ func (loader *Loader) resolveHeaderRef(doc *T, component *HeaderRef, documentPat
 		if component.Value != nil {
 			return nil
 		}
-		if !loader.shouldVisitRef(key, func(value any) {
+		fill := func(value any) {
 			component.Value = value.(*Header)
 			refPath, _ := loader.resolveRefPath(ref, documentPath)
 			component.setRefPath(refPath)
-		}) {
+		}
+		if !loader.shouldVisitRef(key, fill) {
 			return nil
 		}
 		loader.visitRef(key)
@@ -664,6 +700,9 @@ func (loader *Loader) resolveHeaderRef(doc *T, component *HeaderRef, documentPat
 					return nil
 				}
 				return err
+			}
+			if resolved.Value == nil && loader.awaitChainTarget(key, "header", resolved.Ref, componentPath, fill) {
+				return nil
 			}
 			component.Value = resolved.Value
 			component.setRefPath(resolved.RefPath())
@@ -736,11 +775,12 @@ func (loader *Loader) resolveParameterRef(doc *T, component *ParameterRef, docum
 		if component.Value != nil {
 			return nil
 		}
-		if !loader.shouldVisitRef(key, func(value any) {
+		fill := func(value any) {
 			component.Value = value.(*Parameter)
 			refPath, _ := loader.resolveRefPath(ref, documentPath)
 			component.setRefPath(refPath)
-		}) {
+		}
+		if !loader.shouldVisitRef(key, fill) {
 			return nil
 		}
 		loader.visitRef(key)
@@ -762,6 +802,9 @@ func (loader *Loader) resolveParameterRef(doc *T, component *ParameterRef, docum
 					return nil
 				}
 				return err
+			}
+			if resolved.Value == nil && loader.awaitChainTarget(key, "parameter", resolved.Ref, componentPath, fill) {
+				return nil
 			}
 			component.Value = resolved.Value
 			component.setRefPath(resolved.RefPath())
@@ -805,11 +848,12 @@ func (loader *Loader) resolveRequestBodyRef(doc *T, component *RequestBodyRef, d
 		if component.Value != nil {
 			return nil
 		}
-		if !loader.shouldVisitRef(key, func(value any) {
+		fill := func(value any) {
 			component.Value = value.(*RequestBody)
 			refPath, _ := loader.resolveRefPath(ref, documentPath)
 			component.setRefPath(refPath)
-		}) {
+		}
+		if !loader.shouldVisitRef(key, fill) {
 			return nil
 		}
 		loader.visitRef(key)
@@ -831,6 +875,9 @@ func (loader *Loader) resolveRequestBodyRef(doc *T, component *RequestBodyRef, d
 					return nil
 				}
 				return err
+			}
+			if resolved.Value == nil && loader.awaitChainTarget(key, "requestbody", resolved.Ref, componentPath, fill) {
+				return nil
 			}
 			component.Value = resolved.Value
 			component.setRefPath(resolved.RefPath())
@@ -861,11 +908,12 @@ func (loader *Loader) resolveResponseRef(doc *T, component *ResponseRef, documen
 		if component.Value != nil {
 			return nil
 		}
-		if !loader.shouldVisitRef(key, func(value any) {
+		fill := func(value any) {
 			component.Value = value.(*Response)
 			refPath, _ := loader.resolveRefPath(ref, documentPath)
 			component.setRefPath(refPath)
-		}) {
+		}
+		if !loader.shouldVisitRef(key, fill) {
 			return nil
 		}
 		loader.visitRef(key)
@@ -887,6 +935,9 @@ func (loader *Loader) resolveResponseRef(doc *T, component *ResponseRef, documen
 					return nil
 				}
 				return err
+			}
+			if resolved.Value == nil && loader.awaitChainTarget(key, "response", resolved.Ref, componentPath, fill) {
+				return nil
 			}
 			component.Value = resolved.Value
 			component.setRefPath(resolved.RefPath())
@@ -929,11 +980,12 @@ func (loader *Loader) resolveSchemaRef(doc *T, component *SchemaRef, documentPat
 		if component.Value != nil {
 			return nil
 		}
-		if !loader.shouldVisitRef(key, func(value any) {
+		fill := func(value any) {
 			component.Value = value.(*Schema)
 			refPath, _ := loader.resolveRefPath(ref, documentPath)
 			component.setRefPath(refPath)
-		}) {
+		}
+		if !loader.shouldVisitRef(key, fill) {
 			return nil
 		}
 		loader.visitRef(key)
@@ -955,6 +1007,9 @@ func (loader *Loader) resolveSchemaRef(doc *T, component *SchemaRef, documentPat
 					return nil
 				}
 				return err
+			}
+			if resolved.Value == nil && loader.awaitChainTarget(key, "schema", resolved.Ref, componentPath, fill) {
+				return nil
 			}
 			component.Value = resolved.Value
 			component.setRefPath(resolved.RefPath())
@@ -1019,11 +1074,12 @@ func (loader *Loader) resolveSecuritySchemeRef(doc *T, component *SecurityScheme
 		if component.Value != nil {
 			return nil
 		}
-		if !loader.shouldVisitRef(key, func(value any) {
+		fill := func(value any) {
 			component.Value = value.(*SecurityScheme)
 			refPath, _ := loader.resolveRefPath(ref, documentPath)
 			component.setRefPath(refPath)
-		}) {
+		}
+		if !loader.shouldVisitRef(key, fill) {
 			return nil
 		}
 		loader.visitRef(key)
@@ -1047,6 +1103,9 @@ func (loader *Loader) resolveSecuritySchemeRef(doc *T, component *SecurityScheme
 				}
 				return err
 			}
+			if resolved.Value == nil && loader.awaitChainTarget(key, "securityscheme", resolved.Ref, componentPath, fill) {
+				return nil
+			}
 			component.Value = resolved.Value
 			component.setRefPath(resolved.RefPath())
 		}
@@ -1061,11 +1120,12 @@ func (loader *Loader) resolveExampleRef(doc *T, component *ExampleRef, documentP
 		if component.Value != nil {
 			return nil
 		}
-		if !loader.shouldVisitRef(key, func(value any) {
+		fill := func(value any) {
 			component.Value = value.(*Example)
 			refPath, _ := loader.resolveRefPath(ref, documentPath)
 			component.setRefPath(refPath)
-		}) {
+		}
+		if !loader.shouldVisitRef(key, fill) {
 			return nil
 		}
 		loader.visitRef(key)
@@ -1089,6 +1149,9 @@ func (loader *Loader) resolveExampleRef(doc *T, component *ExampleRef, documentP
 				}
 				return err
 			}
+			if resolved.Value == nil && loader.awaitChainTarget(key, "example", resolved.Ref, componentPath, fill) {
+				return nil
+			}
 			component.Value = resolved.Value
 			component.setRefPath(resolved.RefPath())
 		}
@@ -1107,11 +1170,12 @@ func (loader *Loader) resolveCallbackRef(doc *T, component *CallbackRef, documen
 		if component.Value != nil {
 			return nil
 		}
-		if !loader.shouldVisitRef(key, func(value any) {
+		fill := func(value any) {
 			component.Value = value.(*Callback)
 			refPath, _ := loader.resolveRefPath(ref, documentPath)
 			component.setRefPath(refPath)
-		}) {
+		}
+		if !loader.shouldVisitRef(key, fill) {
 			return nil
 		}
 		loader.visitRef(key)
@@ -1133,6 +1197,9 @@ func (loader *Loader) resolveCallbackRef(doc *T, component *CallbackRef, documen
 					return nil
 				}
 				return err
+			}
+			if resolved.Value == nil && loader.awaitChainTarget(key, "callback", resolved.Ref, componentPath, fill) {
+				return nil
 			}
 			component.Value = resolved.Value
 			component.setRefPath(resolved.RefPath())
@@ -1167,11 +1234,12 @@ func (loader *Loader) resolveLinkRef(doc *T, component *LinkRef, documentPath *u
 		if component.Value != nil {
 			return nil
 		}
-		if !loader.shouldVisitRef(key, func(value any) {
+		fill := func(value any) {
 			component.Value = value.(*Link)
 			refPath, _ := loader.resolveRefPath(ref, documentPath)
 			component.setRefPath(refPath)
-		}) {
+		}
+		if !loader.shouldVisitRef(key, fill) {
 			return nil
 		}
 		loader.visitRef(key)
@@ -1194,6 +1262,9 @@ func (loader *Loader) resolveLinkRef(doc *T, component *LinkRef, documentPath *u
 					return nil
 				}
 				return err
+			}
+			if resolved.Value == nil && loader.awaitChainTarget(key, "link", resolved.Ref, componentPath, fill) {
+				return nil
 			}
 			component.Value = resolved.Value
 			component.setRefPath(resolved.RefPath())
